@@ -2254,6 +2254,9 @@ class BruteForceStreamIASolver:
         # Now that we tested every possible solution, lets keep the best
         # one we found
         self._iasolver.clear()
+        # The clear method also forgets the power: set it again, since the
+        # restored (power-scaled) precoders were found for the power `P`
+        self._iasolver.P = P
         self._iasolver._F = self._best_F
         self._iasolver._full_F = self._best_full_F
         self._iasolver._W_H = self._best_W_H
